@@ -317,7 +317,18 @@ func genC20Calls(t *rapid.T, s *c20Shared, n int) []c20Call {
 			if rec.Commitment(18) == upd.Commitment(18) {
 				upd = otherKey(t, rec)
 			}
-			if defaults := rapid.IntRange(0, 3).Draw(t, "defaultKeys"); defaults > 0 {
+			if rapid.Bool().Draw(t, "shortCoordinateKeys") {
+				// operation keys whose coordinates start with zero bytes (the padded encodings are where buffers get shared)
+				zs := pool()[ktSecp256k1]
+				if rapid.Bool().Draw(t, "shortP256") {
+					zs = pool()[ktP256]
+				}
+				upd, rec = zs[len(zs)-1], zs[len(zs)-2]
+				if rapid.Bool().Draw(t, "swapShort") {
+					upd, rec = rec, upd
+				}
+			}
+			if defaults := rapid.IntRange(0, 5).Draw(t, "defaultKeys") - 2; defaults > 0 {
 				// one or both operation keys left to the VDR (it generates them): the DID differs from call to call, what is
 				// compared is that the DID it returns resolves to the document handed in
 				var copts []vdrapi.DIDMethodOption
